@@ -81,6 +81,51 @@ pub async fn apply_op(
         "compact" => {
             account.compact_folder(folder).await?;
         }
+        "forcemerge" => {
+            // a forced overwrite of the folder with the compacted form of its own
+            // history (what another device that compacted would send)
+            use sos_core::commit::CommitTree;
+            use sos_core::events::patch::{FolderDiff, Patch};
+            use sos_core::events::EventRecord;
+            use sos_sync::ForceMerge;
+            let events = {
+                let f = account.folder(folder).await?;
+                let log = f.event_log();
+                let log = log.read().await;
+                sos_reducers::FolderReducer::new().reduce(&*log).await?.compact().await?
+            };
+            let mut records = Vec::new();
+            let mut tree = CommitTree::new();
+            for e in &events {
+                let r = EventRecord::encode_event(e).await?;
+                tree.insert(*r.commit().as_ref());
+                records.push(r);
+            }
+            tree.commit();
+            let diff = FolderDiff {
+                last_commit: None,
+                checkpoint: tree.head()?,
+                patch: Patch::new(records),
+            };
+            let mut outcome = Default::default();
+            account.force_merge_folder(folder, diff, &mut outcome).await?;
+        }
+        "mkfolder" => {
+            use sos_account::FolderCreate;
+            let FolderCreate { folder: summary, .. } = account
+                .create_folder(sos_client_storage::NewFolderOptions::new(format!("name_{s}")))
+                .await?;
+            slots.0.insert(format!("folder:{s}"), summary.id().to_string());
+        }
+        "rmfolder" => {
+            let id: VaultId = slots
+                .0
+                .get(&format!("folder:{s}"))
+                .ok_or_else(|| anyhow!("no folder {s}"))?
+                .parse()?;
+            account.delete_folder(&id).await?;
+            slots.0.remove(&format!("folder:{s}"));
+        }
         _ => return Err(anyhow!("unknown op {kind}")),
     }
     Ok(())
@@ -103,6 +148,17 @@ pub fn probe_of(label: &str, backend: &str) -> Option<(&'static str, usize)> {
         ("compact", 5, "db") => ("db_log_insert:after_tx", 2),
         ("compact", 6, _) => ("client_compact:after_log", 1),
         ("compact", 7, _) => ("client_compact:after_refresh", 1),
+        ("forcemerge", 2, "fs") => ("fs_log_replace:after_snapshot", 1),
+        ("forcemerge", 3, "fs") => ("fs_log_truncate:after_truncate", 1),
+        ("forcemerge", 4, "fs") => ("fs_log_replace:after_clear", 1),
+        ("forcemerge", 5, "fs") => ("fs_log_replace:after_patch", 1),
+        ("forcemerge", 7, "fs") => ("fs_vault_replace:before_write", 1),
+        ("forcemerge", 4, "db") => ("db_log_insert:before_tx", 1),
+        ("forcemerge", 5, "db") => ("db_log_insert:after_tx", 1),
+        ("mkfolder", 2, _) => ("client_create_folder:after_prepare", 1),
+        ("mkfolder", 3, _) => ("client_create_folder:after_account_event", 1),
+        ("rmfolder", 2, _) => ("client_delete_folder:after_remove_vault", 1),
+        ("rmfolder", 3, _) => ("client_delete_folder:after_remove_password", 1),
         _ => return None,
     })
 }
@@ -125,6 +181,8 @@ pub struct Base {
     pub dir: PathBuf,
     pub account_id: String,
     pub password: String,
+    /// CreateFolder / DeleteFolder events in the account log of the fresh account
+    pub folder_events: usize,
 }
 
 /// An account with an empty default folder, created once per run.
@@ -135,12 +193,27 @@ pub async fn make_base(scratch: &Path, backend: &'static str) -> Result<Base> {
     let mut dev = crate::account_world::Device::new(&dir, backend).await?;
     let account_id = dev.account_id.to_string();
     let password = dev.password.expose_secret().to_string();
+    let folder_events = {
+        use sos_core::events::AccountEvent;
+        use sos_sync::StorageEventLogs;
+        let log = dev.account.account_log().await?;
+        let log = log.read().await;
+        let st = log.event_stream(false).await;
+        pin_mut!(st);
+        let mut n = 0;
+        while let Some(r) = st.next().await {
+            if let Ok((_, AccountEvent::CreateFolder(..) | AccountEvent::DeleteFolder(..))) = r {
+                n += 1;
+            }
+        }
+        n
+    };
     dev.account.sign_out().await?;
     let target = dev.target.clone();
     drop(dev);
     crate::account_world::close_target(&target).await;
     drop(target);
-    Ok(Base { dir, account_id, password })
+    Ok(Base { dir, account_id, password, folder_events })
 }
 
 /// Kinds (+ slot and value token) of the events of the default folder's log.
@@ -288,6 +361,66 @@ pub async fn run_cases(
         let mut failures: Vec<(&'static str, String)> = Vec::new();
         match open_account(&dir, backend, &base.account_id, &base.password).await {
             Err(e) => failures.push(("unopenable", format!("the account cannot be opened after the crash: {e}"))),
+            Ok((mut account, _folder)) if ["mkfolder", "rmfolder"].contains(&crashing[0].as_str().unwrap_or("")) => {
+                use sos_sync::StorageEventLogs;
+                use sos_core::events::AccountEvent;
+                // the account log is the log before or after the operation
+                let mut named: std::collections::BTreeSet<String> = Default::default();
+                let mut n_folder_events = 0usize;
+                {
+                    let log = account.account_log().await?;
+                    let log = log.read().await;
+                    let st = log.event_stream(false).await;
+                    pin_mut!(st);
+                    while let Some(r) = st.next().await {
+                        match r {
+                            Ok((_, AccountEvent::CreateFolder(id, _))) => {
+                                // the two built-in folders are created with the account
+                                named.insert(id.to_string());
+                                n_folder_events += 1;
+                            }
+                            Ok((_, AccountEvent::DeleteFolder(id))) => {
+                                named.remove(&id.to_string());
+                                n_folder_events += 1;
+                            }
+                            Ok(_) => {}
+                            Err(e) => failures.push(("alog_unreadable", format!("the account log cannot be read: {e}"))),
+                        }
+                    }
+                }
+                let builtin = base.folder_events;
+                let before = builtin + case["acct_before"].as_u64().unwrap_or(0) as usize;
+                if n_folder_events != before && n_folder_events != before + 1 {
+                    failures.push(("alog_partial", format!(
+                        "the account log has {n_folder_events} folder events: neither the {before} before nor the {} after the operation",
+                        before + 1
+                    )));
+                }
+                // folders served = folders named by the account log, each can be unlocked and read
+                let listed: std::collections::BTreeSet<String> =
+                    account.list_folders().await?.iter().map(|s| s.id().to_string()).collect();
+                if listed != named {
+                    failures.push(("folders_ne_alog", format!(
+                        "the account serves {} folders, its account log names {} (only served: {:?}, only named: {:?})",
+                        listed.len(), named.len(),
+                        listed.difference(&named).collect::<Vec<_>>(), named.difference(&listed).collect::<Vec<_>>()
+                    )));
+                }
+                for id in &listed {
+                    let vid: VaultId = id.parse()?;
+                    if account.find_folder_password(&vid).await.ok().flatten().is_none() {
+                        failures.push(("folder_no_password", format!("folder {id} is served but has no saved password")));
+                    } else if let Err(e) = account.list_secret_ids(&vid).await {
+                        failures.push(("folder_unreadable", format!("folder {id} is served but cannot be read: {e}")));
+                    }
+                }
+                if let Ok(f) = crate::account_world::c16_failures(&account).await {
+                    if let Some(x) = f.into_iter().next() {
+                        failures.push(("integrity", format!("integrity report after recovery: {x}")));
+                    }
+                }
+                let _ = account.sign_out().await;
+            }
             Ok((mut account, folder)) => {
                 // C02 after recovery
                 let mut c02 = Vec::new();
@@ -329,9 +462,11 @@ pub async fn run_cases(
             }
         }
         // what the specification (with the listed deviations) predicts
-        let spec_ok = case["opens"] == true
-            && case["logBeforeOrAfter"] == true
-            && case["folderEqReplay"] == true;
+        let spec_ok = if case.get("consistent").is_some() {
+            case["consistent"] == true && case["acctBeforeOrAfter"] == true
+        } else {
+            case["opens"] == true && case["logBeforeOrAfter"] == true && case["folderEqReplay"] == true
+        };
         if failures.is_empty() && !spec_ok {
             out.count("spec_predicted_failure_but_code_recovered", 1);
         }
